@@ -162,7 +162,8 @@ func (d *Database) NewIterator(prefix []byte, withUpperBound bool) (db.Iterator,
 	)
 
 	for k := range d.db {
-		if strings.HasPrefix(k, pr) && (!withUpperBound || k < ub) {
+		// A nil upper bound means there is none (empty prefix, or every byte is 0xff): same as Pebble.
+		if strings.HasPrefix(k, pr) && (!withUpperBound || upperBound == nil || k < ub) {
 			keys = append(keys, k)
 		}
 	}
